@@ -20,5 +20,14 @@ CHECKS = {
         "thorough": {"checks": 60000, "timeout": 3000, "env": {"VERIF_C12_MAXLEN": 6, "VERIF_C12_SPARSE": 60}},
     },
 }
+CHECKS["C20"] = {
+    "module": "harness26", "go": "go1.26.8", "pkg": "./props/c20", "engine": "rapid+synctest",
+    "level": "exploration",
+    "technique": "model-based property testing (rapid) of the real health loop on a synctest fake clock against a reference model of the statement",
+    "level_text": "Generated histories (0-3 scripted tokens, threshold N 1-5, interval, ping timeout, disabled flag, per-check outcomes ok/error/hang/slow, observation instants, close at any step) are executed on the real server.New health loop inside a testing/synctest bubble; after every observation GET /health is compared with a model written from the statement (disabled, or no completed check for 3 intervals, or last N checks all failed; one success restores). Close is checked separately on the real clock (goroutine must be gone) and inside the bubble (no goroutine, no further token checks).",
+    "level_note": "Trusts go1.26.8 testing/synctest as the clock and scripted fake tokens registered through token.Openers; same-instant races (slow == timeout) are excluded; PKCS#11 worker tokens not exercised.",
+    "quick": {"checks": 4000, "timeout": 600, "vmem_kb": 0},
+    "thorough": {"checks": 60000, "timeout": 3000, "vmem_kb": 0, "shards": 8},
+}
 for _pid in CHECKS:
     NOT_APPLICABLE.pop(_pid, None)
